@@ -273,6 +273,32 @@ func c05UploadCase(r *verifrt.Result, base string, rnd *verifrt.Rand, i int) {
 			}
 		} else {
 			c07faults.Hit("fault-but-report-exists")
+			// a report *file* exists; if it is not the week's complete report (a
+			// write that failed half-way), the week's data must not be lost: after
+			// a fault-free retry either the complete report exists or the counter
+			// files are still there
+			// (a report that is complete for the files that could be read during the
+			// faulted run is a report: a file that becomes readable later is late for
+			// its week and may be dropped; an unreadable or missing local report is not)
+			_, _, err := readReport(filepath.Join(td.dir.LocalDir(), "local."+w+".json"))
+			complete := err == nil
+			if !complete {
+				c07faults.Hit("fault-left-incomplete-report-file")
+				run(nil)
+				_, _, err = readReport(filepath.Join(td.dir.LocalDir(), "local."+w+".json"))
+				complete = err == nil
+				missing := 0
+				for k := 0; k < 2; k++ {
+					f := &ufile{Build: bld, Begin: end.Add(-3 * 24 * time.Hour)}
+					f.setName(k)
+					if _, serr := os.Stat(filepath.Join(td.dir.LocalDir(), f.FileName)); serr != nil {
+						missing++
+					}
+				}
+				if !complete && missing > 0 {
+					c07faults.Violate("data-lost-after-incomplete-report", fmt.Sprintf("fs call #%d failed with %v and left an incomplete report file for week %s; after a fault-free retry there is still no readable local report (%v) and %d of the week's 2 counter files are gone: their data is lost", faultSeq, errno, w, err, missing), rp)
+				}
+			}
 		}
 		if i < 40 && faultSeq > 0 {
 			c07faults.Sample(map[string]any{"case": i, "fault_at_call": faultSeq, "errno": errno.Error(), "layout": layout})
